@@ -158,6 +158,64 @@ class ScriptedSocket(socket.socket):
         return "TLSv1.3"
 
 
+class DeepSocket(ScriptedSocket):
+    """The object urllib3.util.connection.create_connection gets from ``socket.socket(...)`` in deep-dial mode:
+    options, timeout and bind are collected until connect(), which applies the scripted connect plan."""
+
+    deep_net: typing.Any = None
+    deep_peer: typing.Any = None
+    deep_connected = False
+    deep_timeout: typing.Any = "unset"
+    deep_bound: typing.Any = None
+
+    def setsockopt(self, *a: typing.Any) -> None:  # type: ignore[override]
+        if self.deep_connected:
+            return super().setsockopt(*a)
+        self.__dict__.setdefault("deep_opts", []).append(a)
+
+    def settimeout(self, value: typing.Any) -> None:  # type: ignore[override]
+        if self.deep_connected:
+            return super().settimeout(value)
+        self.deep_timeout = value
+        socket.socket.settimeout(self, value)
+
+    def bind(self, addr: typing.Any) -> None:  # type: ignore[override]
+        self.deep_bound = addr
+
+    def connect(self, sa: typing.Any) -> None:  # type: ignore[override]
+        net = self.deep_net
+        import urllib3.util.timeout as ut
+
+        timeout = ut._DEFAULT_TIMEOUT if self.deep_timeout == "unset" else self.deep_timeout
+        k = getattr(net, "_deep_seq", 0)
+        net._deep_seq = k + 1
+        dial = net._plan_dial(sa[0], sa[1], timeout, self.deep_bound, self.__dict__.get("deep_opts"), extra={"address_index": k})
+        self.deep_connected = True
+        net._register(self, self.deep_peer, dial, timeout)
+
+    def close(self) -> None:
+        if self.deep_connected:
+            return super().close()
+        try:
+            self.deep_peer.close()
+        except Exception:  # noqa: BLE001
+            pass
+        socket.socket.close(self)
+
+    def _real_close(self, _ss: typing.Any = socket.socket) -> None:  # type: ignore[override]
+        if self.deep_connected:
+            return super()._real_close()
+        socket.socket._real_close(self)
+
+    def __del__(self) -> None:
+        if self.deep_connected:
+            return super().__del__()
+        try:
+            self.deep_peer.close()
+        except Exception:  # noqa: BLE001
+            pass
+
+
 class SockState:
     def __init__(self, net: "Net", index: int, peer: socket.socket, dial: dict[str, typing.Any]):
         self.net = net
@@ -238,8 +296,11 @@ class Net:
     """One simulated network.  Use as a context manager: patches urllib3 module attributes on entry and
     restores them on exit."""
 
-    def __init__(self, script: typing.Any = None, fake_tls: bool = True):
+    def __init__(self, script: typing.Any = None, fake_tls: bool = True, deep_dial: bool = False, addresses_per_name: int = 1):
         self.script = script
+        self.deep_dial = deep_dial
+        self.addresses_per_name = addresses_per_name
+        self._deep_seq = 0
         self.clock = VClock()
         self.socks: list[ScriptedSocket] = []
         self.states: list[SockState] = []
@@ -264,7 +325,8 @@ class Net:
         import urllib3.util.retry as ur
         import urllib3.util.timeout as ut
 
-        self._patch(uuc, "create_connection", self.create_connection)
+        if not self.deep_dial:
+            self._patch(uuc, "create_connection", self.create_connection)
         self._patch(ut, "time", self.clock)
         self._patch(ur, "time", self.clock)
         if self.fake_tls == "inner":
@@ -297,7 +359,15 @@ class Net:
         shim.socket = ScriptedSocket  # type: ignore[attr-defined]
         for name, mod in list(sys.modules.items()):
             if (name == "urllib3" or name.startswith("urllib3.")) and getattr(mod, "socket", None) is socket:
-                self._patch(mod, "socket", shim)
+                if self.deep_dial and mod is uuc:
+                    # urllib3's own create_connection runs: name resolution and the socket constructor are scripted
+                    deep = types.ModuleType("socket")
+                    deep.__dict__.update(socket.__dict__)
+                    deep.socket = self._deep_socket  # type: ignore[attr-defined]
+                    deep.getaddrinfo = self._deep_getaddrinfo  # type: ignore[attr-defined]
+                    self._patch(mod, "socket", deep)
+                else:
+                    self._patch(mod, "socket", shim)
         return self
 
     def __exit__(self, *a: typing.Any) -> None:
@@ -373,7 +443,17 @@ class Net:
     # -- dialing --------------------------------------------------------------------------------
     def create_connection(self, address: tuple[str, int], timeout: typing.Any = None, source_address: typing.Any = None, socket_options: typing.Any = None) -> socket.socket:
         host, port = address
+        dial = self._plan_dial(host, port, timeout, source_address, socket_options)
+        a, b = socket.socketpair()
+        cs = ScriptedSocket(a.family, a.type, a.proto, fileno=a.detach())
+        self._register(cs, b, dial, timeout)
+        return cs
+
+    def _plan_dial(self, host: str, port: int, timeout: typing.Any, source_address: typing.Any, socket_options: typing.Any, extra: dict[str, typing.Any] | None = None) -> dict[str, typing.Any]:
+        """Records a dial and applies the script's connect plan: returns the dial record or raises what was scripted."""
         dial = {"n": len(self.dials), "host": host, "port": port, "timeout": timeout, "source_address": source_address, "socket_options": socket_options, "t": self.clock.now, "open_before": sum(1 for st in self.states if not st.really_closed and st.index not in self.checkout_fault_socks)}
+        if extra:
+            dial.update(extra)
         with self.lock:
             self.dials.append(dial)
         self._event("dial", dial["n"], host, port, repr(timeout))
@@ -397,12 +477,13 @@ class Net:
             dial["outcome"] = type(act).__name__
             self.raised.append(act)
             raise act
-        a, b = socket.socketpair()
-        cs = ScriptedSocket(a.family, a.type, a.proto, fileno=a.detach())
-        b.setblocking(False)
+        return dial
+
+    def _register(self, cs: "ScriptedSocket", peer: socket.socket, dial: dict[str, typing.Any], timeout: typing.Any) -> None:
+        peer.setblocking(False)
         with self.lock:
             idx = len(self.states)
-            st = SockState(self, idx, b, dial)
+            st = SockState(self, idx, peer, dial)
             cs.vf = st
             self.states.append(st)
             self.socks.append(cs)
@@ -411,6 +492,19 @@ class Net:
             self.max_open = max(self.max_open, self.open_count())
         st.timeouts.append(("connect", timeout))
         self._script_call("on_connected", st)
+
+    # -- deep dialing: urllib3's own create_connection runs; only getaddrinfo and the socket constructor are ours ---
+    def _deep_getaddrinfo(self, host: str, port: int, family: int = 0, type: int = 0, proto: int = 0, flags: int = 0) -> list[typing.Any]:  # noqa: A002
+        self._event("resolve", host, port)
+        n = self.addresses_per_name
+        self._deep_seq = 0
+        return [(socket.AF_INET, socket.SOCK_STREAM, 6, "", (host, port)) for _ in range(n)]
+
+    def _deep_socket(self, af: int = socket.AF_INET, socktype: int = socket.SOCK_STREAM, proto: int = 0, fileno: typing.Any = None) -> "DeepSocket":
+        a, b = socket.socketpair()
+        cs = DeepSocket(a.family, a.type, a.proto, fileno=a.detach())
+        cs.deep_net = self
+        cs.deep_peer = b
         return cs
 
     def open_count(self) -> int:
